@@ -161,6 +161,7 @@ func genBin(g *gen, th bool, scale int) {
 		g.add(true, "%s rt %s", c, binOp(r.Bytes(4096), 4096*8))
 	}
 	o.Stat("exhaustive_small_domain", 1)
+	genLargeBin(g, th)
 
 	// ---------- binary -> text codecs: decoders on arbitrary / malformed text
 	// alphabet for the exhaustive short texts: symbols, both special pairs, padding, newlines,
@@ -554,6 +555,7 @@ func genHash(g *gen, th bool, scale int) {
 			g.add(n > 0, "%s hash %s", h, binOp(b, nbits))
 		}
 	}
+	genLargeHash(g, th)
 }
 
 func genJSON(g *gen, th bool, scale int) {
